@@ -678,13 +678,18 @@ def c05n(prog, rep):
     b = prog.body("pasfmt_core::defaults::parser::declaration_section")
     if not rep.check(b is not None, R, "anchor:declaration_section", "the section-ending predicate declaration_section was not found"):
         return
+    ACCESSORS = ("get_token_type", "get_current_token_type", "is_in_type_decl", "get_current_keyword_kind", "get_keyword_kind", "is_decl_section", "get_last_context_type")
+    tables = []
     try:
-        tb = Table(prog, b, inline=0)
+        tables.append(Table(prog, b, inline=0))
+        # the exception may be a helper (`class_is_part_of_a_type(prev)`): expanded, with the parser's accessors kept as atoms
+        tables.append(Table(prog, b, inline=1, opaque=ACCESSORS, max_paths=8000))
     except TooComplex as e:
-        rep.fail(R, "declaration_section:table", "declaration_section is not a loop-free decision any more: %s" % e)
-        return
+        if not tables:
+            rep.fail(R, "declaration_section:table", "declaration_section is not a loop-free decision any more: %s" % e)
+            return
     exempt, ends = set(), 0
-    for cons, res in tb.rows:
+    for cons, res in [row for tb in tables for row in tb.rows]:
         cur_class = any(c[0] == "is" and str(c[1]).endswith("}.1@Some.0@Keyword.0") and c[2] == "Class" for c in cons) or \
             any(c[0] == "is" and re.search(r"get_current_token_type\([^()]*\)@Some\.0@Keyword\.0$", str(c[1])) and c[2] == "Class" for c in cons)
         if not cur_class:
